@@ -17,7 +17,7 @@ ASSUME = ['dense reach d^L <= 4096 (MPO: d^(2L) <= 2^20)', 'tolerances 1e-11 rel
 TOL = 1e-11
 
 
-def _common(obj, kind, mode, desc, rec):
+def _common(obj, kind, mode, desc, rec, tmag_override=None):
     is_mps = kind == 'mps'
     to_dense = mps_to_vec if is_mps else mpo_to_mat
     maskv = mps_mask_violation if is_mps else mpo_mask_violation
@@ -32,6 +32,8 @@ def _common(obj, kind, mode, desc, rec):
     tmag = 1.0
     for a in obj.A:
         tmag *= float(np.linalg.norm(np.asarray(a, dtype=complex)))
+    if tmag_override is not None:
+        tmag = tmag_override          # rounding scale of the tensors before an exact (power-of-two) gauge change
     scale = max(n0, 1e-3 * tmag, 1e-300)
     # 'left' is the documented default of `mode`: half of the left-mode cases rely on it
     if mode == 'left' and desc['seed'] % 2:
@@ -141,13 +143,45 @@ def _common(obj, kind, mode, desc, rec):
         require(np.linalg.norm(v2 - v1) <= TOL, 're-orthonormalization changed the dense form')
 
 
+def _pow2_gauge(obj, bax, seed):
+    """diag(2^k), |k| <= 60, inserted on an interior bond together with its inverse: the represented object is unchanged bit for
+    bit (powers of two), but the channels of that bond now differ in scale by up to 2^120."""
+    L = len(obj.A)
+    rng = np.random.default_rng(seed + 11)
+    b = 1 + int(rng.integers(0, L - 1))
+    x = 2.0 ** rng.integers(-60, 61, size=obj.A[b].shape[bax])
+    sl_r = (None,) * (obj.A[b - 1].ndim - 1) + (slice(None),)
+    sl_l = (None,) * bax + (slice(None),) + (None,) * (obj.A[b].ndim - bax - 1)
+    obj.A[b - 1] = obj.A[b - 1] * x[sl_r]
+    obj.A[b] = obj.A[b] / x[sl_l]
+
+
+def _tmag(obj):
+    m = 1.0
+    for a in obj.A:
+        m *= float(np.linalg.norm(np.asarray(a, dtype=complex)))
+    return m
+
+
 def check_mps(case, rec):
     psi = build_mps(case['obj'])
+    if case.get('gauge') and len(psi.A) >= 2 and np.issubdtype(psi.A[0].dtype, np.inexact):
+        tm = _tmag(psi)
+        _pow2_gauge(psi, 1, case['obj']['seed'])
+        rec.label('bond_gauge_rescaled')
+        _common(psi, 'mps', case['mode'], case['obj'], rec, tmag_override=tm)
+        return
     _common(psi, 'mps', case['mode'], case['obj'], rec)
 
 
 def check_mpo(case, rec):
     op = build_mpo(case['obj'])
+    if case.get('gauge') and len(op.A) >= 2 and np.issubdtype(op.A[0].dtype, np.inexact):
+        tm = _tmag(op)
+        _pow2_gauge(op, 2, case['obj']['seed'])
+        rec.label('bond_gauge_rescaled')
+        _common(op, 'mpo', case['mode'], case['obj'], rec, tmag_override=tm)
+        return
     _common(op, 'mpo', case['mode'], case['obj'], rec)
 
 
@@ -176,13 +210,13 @@ def gen_mps(draw, tier):
     sc = draw(st.sampled_from([None, None, None, 1e-3, 2e3]))
     if sc is not None and obj['style'] != 'intdtype':
         obj['scale'] = sc
-    return {'obj': obj, 'mode': draw(st.sampled_from(['left', 'right']))}
+    return {'obj': obj, 'mode': draw(st.sampled_from(['left', 'right'])), 'gauge': draw(st.sampled_from([False, False, False, True]))}
 
 
 @st.composite
 def gen_mpo(draw, tier):
     return {'obj': draw(mpo_desc(Lmin=1, Lmax=4 if tier == 'quick' else 5, Dmax=4 if tier == 'quick' else 6)),
-            'mode': draw(st.sampled_from(['left', 'right']))}
+            'mode': draw(st.sampled_from(['left', 'right'])), 'gauge': draw(st.sampled_from([False, False, False, True]))}
 
 
 @st.composite
